@@ -13,13 +13,33 @@ pub struct P;
 pub const NEXT: &[u8] = b"HTTP/1.1 200 OK\r\nContent-Length: 0\r\n\r\n";
 
 pub fn chunked_body_flow() -> F<RecvBody> {
-    let mut f = super::c05::recv_flow("GET");
-    let head = b"HTTP/1.1 200 OK\r\nTransfer-Encoding: chunked\r\n\r\n";
-    let (n, r) = f.try_response(head).expect("head parses");
-    assert!(n == head.len() && r.is_some());
+    chunked_body_flow_for(0).expect("a chunked 200 leads to RecvBody")
+}
+
+/// A chunked coding frames the body of any response that has one, not just a 200.
+pub const CHUNKED_STATUSES: [(&str, u16, &str); 8] = [
+    ("GET", 200, ""),
+    ("POST", 201, ""),
+    ("GET", 205, ""),
+    ("GET", 206, ""),
+    ("DELETE", 404, ""),
+    ("PUT", 500, ""),
+    ("GET", 301, "Location: /next\r\n"),
+    ("OPTIONS", 399, ""),
+];
+
+pub fn chunked_body_flow_for(which: usize) -> Result<F<RecvBody>, String> {
+    let (method, status, extra) = CHUNKED_STATUSES[which % CHUNKED_STATUSES.len()];
+    let mut f = super::c05::recv_flow(method);
+    let head = format!("HTTP/1.1 {} X\r\n{}Transfer-Encoding: chunked\r\n\r\n", status, extra);
+    let (n, r) = f.try_response(head.as_bytes()).map_err(|e| format!("{:?}", e))?;
+    if n != head.len() || r.is_none() {
+        return Err("head not accepted".into());
+    }
     match f.proceed() {
-        Some(RecvResponseResult::RecvBody(b)) => b,
-        _ => panic!("chunked response must lead to RecvBody"),
+        Some(RecvResponseResult::RecvBody(b)) => Ok(b),
+        Some(_) => Err(format!("a {} response to {} with Transfer-Encoding: chunked did not enter the body state", status, method)),
+        None => Err("cannot proceed after the head".into()),
     }
 }
 
@@ -27,6 +47,9 @@ pub fn chunked_body_flow() -> F<RecvBody> {
 pub enum OutPat {
     /// 0,1,2,3,4,0,1,...
     Cycle04,
+    /// buffers of this size while payload is outstanding, zero-length buffers afterwards: the
+    /// caller's buffer is exactly full, yet the framing behind the payload still has to be consumed
+    ZeroAfterPayload(usize),
     One,
     Large,
     Fixed(usize),
@@ -36,6 +59,7 @@ impl OutPat {
     fn size(&self, i: usize) -> usize {
         match self {
             OutPat::Cycle04 => i % 5,
+            OutPat::ZeroAfterPayload(n) => *n,
             OutPat::One => 1,
             OutPat::Large => 1 << 16,
             OutPat::Fixed(n) => *n,
@@ -44,6 +68,7 @@ impl OutPat {
     fn name(&self) -> &'static str {
         match self {
             OutPat::Cycle04 => "out=0..4",
+            OutPat::ZeroAfterPayload(_) => "out=0-after-payload",
             OutPat::One => "out=1",
             OutPat::Large => "out=large",
             OutPat::Fixed(_) => "out=fixed",
@@ -63,7 +88,13 @@ pub fn run_coding(coded: &Coded, cuts: &[usize], pat: OutPat, stop: bool, rec: &
     let mut stream = coded.bytes.clone();
     stream.extend_from_slice(tail);
     let clen = coded.bytes.len();
-    let mut f = chunked_body_flow();
+    let mut f = match chunked_body_flow_for(clen + cuts.len()) {
+        Ok(f) => f,
+        Err(e) => {
+            rec.fail("C07/chunked-response-without-body-state", e);
+            return false;
+        }
+    };
     if stop {
         f.stop_on_chunk_boundary(true);
     }
@@ -84,7 +115,11 @@ pub fn run_coding(coded: &Coded, cuts: &[usize], pat: OutPat, stop: bool, rec: &
                 return false;
             }
             let window = &stream[consumed..arrived];
-            let osz = pat.size(call_i);
+            let mut osz = pat.size(call_i);
+            if let OutPat::ZeroAfterPayload(n) = pat {
+                let outstanding = coded.data.len() - out.len();
+                osz = outstanding.min(n);
+            }
             call_i += 1;
             let mut buf = vec![0u8; osz];
             rec.call();
@@ -142,6 +177,16 @@ pub fn run_coding(coded: &Coded, cuts: &[usize], pat: OutPat, stop: bool, rec: &
                     format!("after consuming {} of {} coding bytes the body reports ended={}", consumed, clen, ended),
                 );
                 return false;
+            }
+            if c == 0 && p == 0 && osz == 0 && matches!(pat, OutPat::ZeroAfterPayload(_)) && out.len() == coded.data.len() {
+                if arrived == stream.len() {
+                    rec.fail(
+                        "C07/framing-not-consumed-without-output-space",
+                        format!("all payload delivered and the rest of the coding ({} bytes) is in the window, but a read into a zero-length buffer consumed nothing: a caller whose buffer is exactly full never sees the body end", clen - consumed),
+                    );
+                    return false;
+                }
+                break;
             }
             if c == 0 && p == 0 && osz > 0 {
                 // no progress although there was room: wait for more input
@@ -238,7 +283,7 @@ fn tiny_index(max_len: usize) -> TinyIndex {
     for p in &plans {
         starts.push(t);
         let len = encode_plan(p, 0).bytes.len();
-        t += (1u64 << (len - 1)) * 6;
+        t += (1u64 << (len - 1)) * 8;
     }
     TinyIndex { plans, starts, total: t }
 }
@@ -249,13 +294,13 @@ fn tiny_case(ix: &TinyIndex, idx: u64, rec: &mut Rec) {
         Err(i) => i - 1,
     };
     let local = idx - ix.starts[pi];
-    let variant = (local % 6) as usize;
-    let mask = local / 6;
+    let variant = (local % 8) as usize;
+    let mask = local / 8;
     let coded = encode_plan(&ix.plans[pi], 3);
     let len = coded.bytes.len();
     let cuts: Vec<usize> = (1..len).filter(|i| mask & (1 << (i - 1)) != 0).collect();
-    let pat = [OutPat::Cycle04, OutPat::One, OutPat::Large][variant % 3];
-    let stop = variant >= 3;
+    let pat = [OutPat::Cycle04, OutPat::One, OutPat::Large, OutPat::ZeroAfterPayload(2)][variant % 4];
+    let stop = variant >= 4;
     rec.ev(|| format!("coding {:?} cuts={:?} {} stop={}", esc_short(&coded.bytes, 60), cuts, pat.name(), stop));
     cov_cuts(&coded, &cuts, pat, stop, rec);
     run_coding(&coded, &cuts, pat, stop, rec);
@@ -307,11 +352,11 @@ fn grammar_case(rng: &mut Rng, rec: &mut Rec) {
     let len = coded.bytes.len();
     let cand = near_boundaries(&coded);
     rec.ev(|| format!("coding ({} bytes, {} chunks {:?}, {} trailers): {:?}", len, plan.chunks.len(), plan.chunks.iter().map(|c| c.size).collect::<Vec<_>>(), plan.trailers.len(), esc_short(&coded.bytes, 80)));
-    let pats = [OutPat::Cycle04, OutPat::One, OutPat::Large, OutPat::Fixed(rng.usize_in(2, 40))];
+    let pats = [OutPat::Cycle04, OutPat::One, OutPat::Large, OutPat::Fixed(rng.usize_in(2, 40)), OutPat::ZeroAfterPayload(rng.usize_in(1, 5000))];
     let mut variant = rng.below(8) as usize;
     let mut run = |cuts: &[usize], rec: &mut Rec| -> bool {
         variant += 1;
-        let mut pat = pats[variant % 4];
+        let mut pat = pats[variant % 5];
         if len > 600 && matches!(pat, OutPat::Cycle04 | OutPat::One) && variant % 3 != 0 {
             pat = OutPat::Fixed(100 + variant % 7);
         }
@@ -381,7 +426,8 @@ fn random_case(rng: &mut Rng, rec: &mut Rec) {
             .collect();
         cuts.sort();
         cuts.dedup();
-        let pat = match rng.below(4) {
+        let pat = match rng.below(5) {
+            4 => OutPat::ZeroAfterPayload(rng.usize_in(1, 30_000)),
             0 => OutPat::Large,
             1 => OutPat::Fixed(rng.usize_in(1, 64)),
             2 => OutPat::Fixed(rng.usize_in(64, 5000)),
@@ -406,7 +452,7 @@ impl Property for P {
         "C07"
     }
     fn rule(&self) -> String {
-        "chunked codings are rendered from a plan (sizes, hex case, leading zeros, extensions, trailers, payload containing CR/LF/'0'/';'), so payload, coding length and chunk map are known. Each run delivers the coding followed by the head of a next message under a cut set, reading while there is progress with a given output-size pattern, boundary stop on or off, and checks after every read: output == payload so far, never a byte beyond the coding consumed, ended <=> final CRLF consumed, no read spanning two chunks with boundary stop. (A) every coding <= 18 bytes of a tiny grammar x ALL cut sets x {out 0..4 cycle, 1, large} x stop on/off; (B) grammar codings (<=3 chunks, sizes 1,2,3,15,16,255,256,4095,4096, ext, hex styles, 0..2 trailers) x every single cut and every pair of cuts within +-3 of a token boundary, byte-at-a-time, random cut sets; (C) random codings up to 8 chunks of 20 KB. class = token kind before the cut x output pattern; decoder transitions actually taken are counted by the in-crate hook.".into()
+        "chunked codings are rendered from a plan (sizes, hex case, leading zeros, extensions, trailers, payload containing CR/LF/'0'/';'), so payload, coding length and chunk map are known. Each run delivers the coding followed by the head of a next message under a cut set, reading while there is progress with a given output-size pattern, boundary stop on or off, and checks after every read: output == payload so far, never a byte beyond the coding consumed, ended <=> final CRLF consumed, no read spanning two chunks with boundary stop. (A) every coding <= 18 bytes of a tiny grammar x ALL cut sets x {out 0..4 cycle, 1, large, exact-then-zero-length} x stop on/off; the response carrying the coding is one of eight (method, status) pairs incl. 205, 301, 404, 500; (B) grammar codings (<=3 chunks, sizes 1,2,3,15,16,255,256,4095,4096, ext, hex styles, 0..2 trailers) x every single cut and every pair of cuts within +-3 of a token boundary, byte-at-a-time, random cut sets; (C) random codings up to 8 chunks of 20 KB. class = token kind before the cut x output pattern; decoder transitions actually taken are counted by the in-crate hook.".into()
     }
     fn assumptions(&self) -> Vec<String> {
         vec![
@@ -417,7 +463,7 @@ impl Property for P {
     fn workloads(&self, tier: Tier) -> Vec<Workload> {
         let ix = tiny_index(tier.pick(14, 18));
         vec![
-            Workload::new(if tier == Tier::Quick { "tiny-all-cutsets-14" } else { "tiny-all-cutsets-18" }, ix.total, true, format!("{} codings of <= {} bytes, every cut set, 6 variants", ix.plans.len(), tier.pick(14, 18))),
+            Workload::new(if tier == Tier::Quick { "tiny-all-cutsets-14" } else { "tiny-all-cutsets-18" }, ix.total, true, format!("{} codings of <= {} bytes, every cut set, 8 variants", ix.plans.len(), tier.pick(14, 18))),
             Workload::new("grammar-boundary-cuts", tier.pick(500, 60_000), false, "grammar codings x single/pair cuts near token boundaries"),
             Workload::new("random-codings", tier.pick(1_500, 400_000), false, "random codings beyond the small scope"),
         ]
@@ -456,6 +502,7 @@ impl Property for P {
             v.push((format!("hook:dechunk:{}", e), 1000));
         }
         v.push(("boundary-stop/on".into(), 1000));
+        v.push(("cut-after/data/out=0-after-payload".into(), 100));
         v.push(("tail/starts-with-CRLF".into(), 1000));
         v.push(("tail/looks-like-last-chunk".into(), 1000));
         v.push(("boundary-stop/off".into(), 1000));
